@@ -158,7 +158,8 @@ def run_c01_inputs(ctx, shard):
                 pixels = iter(chs)
                 kw["ordered"] = True
             elif form == "dict":
-                pixels = {col: df[col].to_numpy() for col in df.columns}
+                perm = rng.permutation(len(df))
+                pixels = {col: df[col].to_numpy()[perm] for col in df.columns}
             elif form == "df_shuffled":
                 pixels = df.iloc[rng.permutation(len(df))]
             else:
